@@ -43,9 +43,34 @@ Definition negot_tag (hdr : option bytes) : bytes :=
               end
   end.
 
+(* further Accept-Encoding lines of the same request: (bytes, AST) each *)
+Definition dec_more (v : val) : option (list (bytes * list elem)) :=
+  vlist (fun x => match x with
+                  | VL [VB b; ast] => match vlist dec_elem ast with Some l => Some (b, l) | None => None end
+                  | _ => None end) v.
+
+(* Several lines: HeaderMap::get gives the first (what the crate and the model evaluate); RFC 7230 3.2.2
+   allows a recipient to combine them into one list. C16 speaks of one value. A case with several lines
+   makes a claim only where both readings agree. *)
+Definition run_negot_lines (h : bytes) (l1 : list elem) (more : list (bytes * list elem)) (obs : val) : list val :=
+  let all := l1 ++ flat_map snd more in
+  if forallb (fun p => beq_bytes (render_list (snd p)) (fst p)) more && beq_bytes (render_list l1) h then
+    if Bool.eqb (prefers_gzip l1) (prefers_gzip all) then
+      cmp_field F_RESULT (of_mbool (should_gzip (Some h))) obs
+      ++ (if val_eqb obs (of_bool (prefers_gzip l1)) then [] else [nclause "decision-with-repeated-header-lines"])
+    else cmp_field (F_RESULT ++ bs ".lines-disagree") (of_mbool (should_gzip (Some h))) obs
+  else [finding K_BAD (bs "negot-hint") (VB h) (VL [])].
+
 Definition run_negot (v : val) : val :=
   match v with
-  | VL [VL [hdr; hint]; obs] =>
+  | VL [VL [VL [VB h]; VL [ast]; VL (m1 :: mrest)]; obs] =>
+      match vlist dec_elem ast, dec_more (VL (m1 :: mrest)) with
+      | Some l1, Some more =>
+          VL (finding K_TAG (bs "lines:" ++ negot_tag (Some h)) (VL []) (VL [])
+              :: (match obs with VN 2 => [nclause "no-panic"] | _ => [] end) ++ run_negot_lines h l1 more obs)
+      | _, _ => VL [finding K_BAD (bs "negot-lines") (VL []) (VL [])]
+      end
+  | VL [VL (hdr :: hint :: _); obs] =>
       match vopt vbytes hdr with
       | None => VL [finding K_BAD (bs "negot") (VL []) (VL [])]
       | Some h =>
